@@ -47,7 +47,7 @@ type Site struct {
 // C05Scenario is one faulted parse.
 type C05Scenario struct {
 	Module string `json:"module"`
-	Index  int    `json:"index"` // index of the site in the module's site list
+	Index  int    `json:"index"`           // index of the site in the module's site list
 	Cross  bool   `json:"cross,omitempty"` // redirect to Site.Alt (a name defined in another namespace) instead of a fresh name
 	Site   Site   `json:"site"`
 	Orders int    `json:"orders"`     // number of seeded translation orders besides the canonical one
@@ -362,7 +362,7 @@ func c05Run(sc *C05Scenario) *c05Outcome {
 		simrt.SeamsOn(true, false)
 		var m *ir.Module
 		var err error
-		pan, msg := protect(func() { m, err = asm.ParseString(sc.Module, faulted) })
+		pan, msg := protect(func() { simCall(func() { m, err = asm.ParseString(sc.Module, faulted) }) })
 		st := simrt.Snapshot()
 		simrt.SeamsOn(false, false)
 		out.orders++
@@ -417,7 +417,9 @@ func c05Search() {
 		// Control: the unfaulted module is accepted.
 		var m *ir.Module
 		var err error
-		if pan, _ := protect(func() { m, err = asm.ParseString(cf.Name, cf.Text) }); pan || err != nil || m == nil {
+		cf := cf
+		simrt.Load((&Tape{}).config())
+		if pan, _ := protect(func() { simCall(func() { m, err = asm.ParseString(cf.Name, cf.Text) }) }); pan || err != nil || m == nil {
 			sum.Skipped["control: the unfaulted module is not accepted"]++
 			continue
 		}
